@@ -135,6 +135,14 @@ def coq_make(targets, timeout=1500):
     with Lock("coq"):
         coq_project()
         rc, out, dt = run(["make", "-j%d" % NPROC] + targets, cwd=COQ, timeout=timeout)
+        for attempt in range(2):
+            # a failure without a Coq error location is a killed/starved process, not a broken proof:
+            # the build is incremental, so it is simply continued
+            if rc == 0 or rc == 124 or re.search(r'File "\./[^"]+", line \d+', out):
+                break
+            time.sleep(5 + 10 * attempt)
+            rc, out2, dt2 = run(["make", "-j%d" % max(1, NPROC // 2)] + targets, cwd=COQ, timeout=timeout)
+            out, dt = out + "\n[retry]\n" + out2, dt + dt2
         return rc == 0, out, dt
 
 
@@ -164,7 +172,13 @@ def check_props(props_rel):
     theorems = re.findall(r"^\s*(?:Theorem|Example)\s+([A-Za-z0-9_']+)", src, re.M)
     bad_proofs = []
     # property files may only close proofs with `exact` (plus vm_compute witnesses for refutations/examples)
-    rc, out, dt = run(["coqc", "-Q", ".", "L4", "-w", "-notation-overridden,-deprecated-hint-without-locality,-deprecated-instance-without-locality", props_rel], cwd=COQ, timeout=600)
+    cmd = ["coqc", "-Q", ".", "L4", "-w", "-notation-overridden,-deprecated-hint-without-locality,-deprecated-instance-without-locality", props_rel]
+    rc, out, dt = run(cmd, cwd=COQ, timeout=600)
+    for attempt in range(3):
+        if not transient_failure(rc, out):
+            break
+        time.sleep(5 + 10 * attempt)
+        rc, out, dt = run(cmd, cwd=COQ, timeout=600)
     closed = len(re.findall(r"Closed under the global context", out))
     axioms = []
     for m in re.finditer(r"Axioms:\n((?:.+\n)+?)(?=\n|Closed|\Z)", out):
@@ -237,7 +251,19 @@ def run_engine(prop, eng, seed, tier, extra_env=None):
         cmd.append("-race")
     cmd += eng.get("go_flags", [])
     cmd.append("./" + eng["pkg"])
-    rc, out, dt = run(cmd, cwd=REPO, env=env, timeout=eng.get("timeout_" + tier, eng.get("timeout", 600)) + 120)
+    tmo = eng.get("timeout_" + tier, eng.get("timeout", 600)) + 120
+    rc, out, dt = run(cmd, cwd=REPO, env=env, timeout=tmo)
+    for attempt in range(2):
+        # the test binary or the go tool killed from outside (OOM killer): says nothing about the code
+        if rc == 0 or not re.search(r"signal: killed|fork/exec .*: (cannot allocate memory|resource temporarily unavailable)|runtime: out of memory: cannot allocate", out):
+            break
+        if re.search(r"^--- FAIL|^panic:", out, re.M) and "signal: killed" not in out:
+            break
+        time.sleep(10 + 20 * attempt)
+        if os.path.exists(outp):
+            os.remove(outp)
+        rc, out, dt2 = run(cmd, cwd=REPO, env=env, timeout=tmo)
+        dt += dt2
     recs = []
     if os.path.exists(outp):
         for line in open(outp, errors="replace"):
@@ -253,9 +279,25 @@ def run_engine(prop, eng, seed, tier, extra_env=None):
 
 
 # ----------------------------------------------------------------------------- in-Coq evaluation
+def transient_failure(rc, out):
+    """A coqc/make failure that says nothing about the development: the process was killed (signal,
+    OOM killer) or died without printing an error. Such a run is repeated, never reported as is."""
+    if rc == 0:
+        return False
+    return rc < 0 or rc in (137, 143) or "Error" not in out or \
+        re.search(r"Out of memory|Cannot allocate memory|Killed|Resource temporarily unavailable", out) is not None
+
+
 def _coqc_shard(args):
     path, = args
-    rc, out, dt = run(["coqc", "-Q", COQ, "L4", "-w", "-notation-overridden", path], cwd=os.path.dirname(path), timeout=900)
+    cmd = ["coqc", "-Q", COQ, "L4", "-w", "-notation-overridden", path]
+    rc, out, dt = run(cmd, cwd=os.path.dirname(path), timeout=900)
+    for attempt in range(3):
+        if not transient_failure(rc, out):
+            break
+        time.sleep(5 + 10 * attempt)
+        rc, out, dt2 = run(cmd, cwd=os.path.dirname(path), timeout=900)
+        dt += dt2
     return path, rc, out, dt
 
 
